@@ -22,10 +22,14 @@
 //! SOFTWARE.
 
 use std::alloc::Layout;
+#[cfg(not(nucleo_verif_loom))]
 use std::cell::UnsafeCell;
 use std::fmt::Debug;
 use std::mem::MaybeUninit;
+#[cfg(not(nucleo_verif_loom))]
 use std::sync::atomic::{AtomicBool, AtomicPtr, AtomicU64, Ordering};
+#[cfg(nucleo_verif_loom)]
+use crate::verif_loom::{AtomicBool, AtomicPtr, AtomicU64, Ordering, UnsafeCell};
 use std::{ptr, slice};
 
 use crate::{Item, Utf32String};
@@ -105,6 +109,10 @@ impl<T> Vec<T> {
             // since the caller must only guarantee that he has observed active on any thread
             // but the current thread might still have an old value cached (although unlikely)
             let _ = (*entry).active.load(Ordering::Acquire);
+            #[cfg(nucleo_verif)]
+            if !(*entry).active.load(Ordering::Acquire) {
+                crate::verif::point("boxcar:get_unchecked_inactive", index as u64);
+            }
             Entry::read(entry, self.columns)
         }
     }
@@ -142,6 +150,8 @@ impl<T> Vec<T> {
         let index = self.inflight.fetch_add(1, Ordering::Release);
         // the inflight counter is a `u64` to catch overflows of the vector'scapacity
         let index: u32 = index.try_into().expect("overflowed maximum capacity");
+        #[cfg(nucleo_verif)]
+        crate::verif::point("boxcar:reserved", index as u64);
         let location = Location::of(index);
 
         // eagerly allocate the next bucket if we are close to the end of this one
@@ -176,6 +186,8 @@ impl<T> Vec<T> {
             }
             fill_columns(&value, Entry::matcher_cols_mut(entry, self.columns));
             (*entry).slot.get().write(MaybeUninit::new(value));
+            #[cfg(nucleo_verif)]
+            crate::verif::point("boxcar:before_publish", index as u64);
             // let other threads know that this entry is active
             (*entry).active.store(true, Ordering::Release);
         }
@@ -206,6 +218,8 @@ impl<T> Vec<T> {
             .fetch_add(u64::from(count), Ordering::Release)
             .try_into()
             .expect("overflowed maximum capacity");
+        #[cfg(nucleo_verif)]
+        crate::verif::point("boxcar:reserved", start_index as u64);
 
         // Compute first and last locations
         let start_location = Location::of(start_index);
@@ -266,6 +280,8 @@ impl<T> Vec<T> {
                 }
                 fill_columns(&v, Entry::matcher_cols_mut(entry, self.columns));
                 (*entry).slot.get().write(MaybeUninit::new(v));
+                #[cfg(nucleo_verif)]
+                crate::verif::point("boxcar:before_publish", (start_index as u64) + i as u64);
                 (*entry).active.store(true, Ordering::Release);
             }
         }
@@ -524,12 +540,16 @@ impl<T> Bucket<T> {
             let active = entries.add(i as usize * layout.size()) as *mut AtomicBool;
             active.write(AtomicBool::new(false))
         }
+        #[cfg(nucleo_verif_loom)]
+        crate::verif_loom::bucket_init(entries as usize, arr_layout.size());
         entries as *mut Entry<T>
     }
 
     unsafe fn dealloc(entries: *mut Entry<T>, len: u32, cols: u32) {
         let layout = Entry::<T>::layout(cols);
         let arr_layout = Self::layout(len, layout);
+        #[cfg(nucleo_verif_loom)]
+        crate::verif_loom::bucket_dealloc(entries as usize, arr_layout.size());
         for i in 0..len {
             let entry = Bucket::get(entries, i, cols);
             if *(*entry).active.get_mut() {
@@ -543,6 +563,8 @@ impl<T> Bucket<T> {
     }
 
     unsafe fn get(entries: *mut Entry<T>, idx: u32, cols: u32) -> *mut Entry<T> {
+        #[cfg(nucleo_verif_loom)]
+        crate::verif_loom::bucket_use(entries as usize);
         let layout = Entry::<T>::layout(cols);
         let ptr = entries as *mut u8;
         ptr.add(layout.size() * idx as usize) as *mut Entry<T>
@@ -598,6 +620,8 @@ impl<T> Entry<T> {
     //
     // Value must be initialized.
     unsafe fn read<'a>(ptr: *mut Entry<T>, cols: u32) -> Item<'a, T> {
+        #[cfg(nucleo_verif_loom)]
+        let _read_scope = crate::verif_loom::read_scope();
         // this whole thing looks weird. The reason we do this is that
         // we must make sure the pointer retains its provenance which may (or may not?)
         // be lost if we used tail.as_ptr()
